@@ -404,7 +404,12 @@ def pred_run_directions(seed: int) -> tuple[str, str] | None:
     bounds[wall] = (0.0, 2.0)
     c = StandardCoordinates(ndim=d, bounds=bounds)
     x0 = cpt + np.array([rng.uniform(-0.15, 0.15) for _ in range(d)])
-    x0[wall] = rng.uniform(0.03, 0.09)
+    # started a little inside the wall — or ON it, as a candidate pinned at a bound is (the very first curvature
+    # search of the run then already sits on a face)
+    x0[wall] = rng.uniform(0.03, 0.09) if rng.random() < 0.55 else 0.0
+    if rng.random() < 0.25 and d >= 2:
+        other = (wall + 1) % d
+        x0[other] = rng.choice([-2.0, 2.0])          # and sometimes on a second face, lower or upper
     c.position = np.clip(x0, [b[0] for b in bounds], [b[1] for b in bounds])
     h = HEF(pot, 1e-5, 40, 0.3, max_uphill_step_size=0.2, positive_eigenvalue_step=0.05)
     log = []
